@@ -20,6 +20,9 @@ type C06Case struct {
 	Targets   []string  `json:"targets"`
 	Sets      []SetSpec `json:"sets"`
 	Rollbacks []int     `json:"rollbacks"` // log indexes asked to be rolled back, in order
+	// Restart: after the rollbacks every device restarts empty and is re-synchronised: what it is sent then must
+	// still be the state the rollbacks restored (the applied values must have followed the rollback)
+	Restart bool `json:"restart,omitempty"`
 }
 
 func c06Opts(targets []string) *GenOpts {
@@ -69,6 +72,7 @@ func genC06(rt *rapid.T) C06Case {
 		c.Rollbacks = append(c.Rollbacks, idx)
 		logLen++
 	}
+	c.Restart = rapid.IntRange(0, 1).Draw(rt, "restart") == 1
 	return c
 }
 
@@ -225,6 +229,23 @@ func runC06(c C06Case, x *vstat.Ctx) error {
 			explainSubtreeRollback(w, x, ref, target)
 		}
 		if err := compareAll(w, ref, c.Targets, fmt.Sprintf("after rollback(%d) [%s]", idx, rtx.Outcome)); err != nil {
+			return err
+		}
+	}
+	if c.Restart {
+		x.Class("devices restart empty after the rollbacks and are re-synchronised")
+		for _, t := range c.Targets {
+			w.LinkDown(t)
+			w.Devices[t].RestartEmpty()
+			x.Logf("device %s restarted empty", t)
+			if err := w.LinkUp(t); err != nil {
+				return err
+			}
+		}
+		if err := w.S.Run(); err != nil {
+			return err
+		}
+		if err := compareAll(w, ref, c.Targets, "after the devices restarted empty and were re-synchronised"); err != nil {
 			return err
 		}
 	}
